@@ -49,6 +49,7 @@ f := {|x| x}
 nested := [a, o, [7, 8]]
 e := 1.try
 ew := 1.try./(0).err
+kf := {|a: 0, b: 0| [a, b, \_]}
 `
 
 var poolVars = []string{"n", "fl", "s", "a", "a5", "o", "ch", "m", "r", "f", "nested", "e", "ew"}
@@ -422,6 +423,11 @@ func depth1Ops(h *hrunner) []string {
 		}
 	}
 	ops = append(ops, coreOps("t0", append([]string{}, poolVars...))...)
+	// built-in prototypes as the first of several expansions / as unpack sources
+	for _, proto := range []string{"Int", "Obj", "Arr", "Str", "Kernel", "BaseObj", "Map", "Either"} {
+		ops = append(ops, "t0 := kf(**"+proto+", **{marker: 1})", "t0 := kf(**{marker: 1}, **"+proto+")", "t0 := {**"+proto+", marker: 1}.keys.len", "t0 := "+proto+".bear({marker: 1})",
+			"t0 := 1.p(**"+proto+", **{end: \"\"})")
+	}
 	return dedup(ops)
 }
 
@@ -496,8 +502,15 @@ func coreOps(target string, vars []string) []string {
 		add(x + ".items")
 		add(x + "@({}){|k, v| [k, v]}")
 		add("%{**" + x + "}")
+		// several `**` expansions in one argument list (merged into one kwargs object)
+		add("kf(**" + x + ", **{zz: 1})")
+		add("kf(**{zz: 1}, **" + x + ")")
+		add("kf(a: 1, **" + x + ", **{zz: 1})")
+		add(x + ".keys(**" + x + ", **{private?: true})")
+		add("kf(**" + x + ", **{zz: 1}, **{yy: 2})")
 		for _, y := range objs {
 			add("{**" + x + ", **" + y + "}")
+			add("kf(**" + x + ", **" + y + ")")
 		}
 	}
 	for _, x := range maps {
